@@ -134,9 +134,29 @@ let h_ll_consts _ =
     (int_of_z (F.lat_semis F.new_latitude_invalid))
     (int_of_z (F.lng_semis F.new_longitude_invalid))
 
+let coq_string (s : string) : F.string =
+  let r = ref F.EmptyString in
+  for i = String.length s - 1 downto 0 do
+    let k = Char.code s.[i] in
+    let b j = (k lsr j) land 1 = 1 in
+    r := F.String (F.Ascii (b 0, b 1, b 2, b 3, b 4, b 5, b 6, b 7), !r)
+  done;
+  !r
+
+(* pf <text> ... -> the spec's fixed-point reader: neg,n or none *)
+let h_pf args =
+  String.concat " "
+    (List.map
+       (fun a ->
+         match F.parse_fixed5 (coq_string a) with
+         | Some (neg, n) -> Printf.sprintf "%b,%d" neg (int_of_z n)
+         | None -> "none")
+       args)
+
 let install (register : string -> (string list -> string) -> unit) =
   register "t_dec" h_t_dec;
   register "t_enc" h_t_enc;
   register "ll" h_ll;
   register "lld" h_lld;
-  register "ll_consts" h_ll_consts
+  register "ll_consts" h_ll_consts;
+  register "pf" h_pf
